@@ -1130,8 +1130,29 @@ class FuncGraph:
         else:
             st.dead, st.dkind, st.dval = True, "ret", v
 
+    def _message_free(self, exc, st):
+        """`raise SomeError("text …")`: the wording of the message is not behaviour any property speaks about — the
+        exception is numbered by its type (and its non-text arguments) only.  The text is still *evaluated* when it can
+        have effects (a call inside an f-string)."""
+        if not (isinstance(exc, ast.Call) and isinstance(exc.func, (ast.Name, ast.Attribute)) and not exc.keywords):
+            return None
+        name = exc.func.id if isinstance(exc.func, ast.Name) else exc.func.attr
+        if not name.endswith(("Error", "Exception", "Warning")):
+            return None
+        parts = []
+        for a in exc.args:
+            texty = isinstance(a, ast.JoinedStr) or (isinstance(a, ast.Constant) and isinstance(a.value, str)) or \
+                (isinstance(a, ast.Call) and isinstance(a.func, ast.Attribute) and a.func.attr == "format" and isinstance(a.func.value, ast.Constant)) or \
+                (isinstance(a, ast.BinOp) and isinstance(a.op, ast.Mod) and isinstance(a.left, ast.Constant) and isinstance(a.left.value, str))
+            if texty and not any(isinstance(x, (ast.Call, ast.Yield, ast.Await, ast.NamedExpr)) and not
+                                 (isinstance(x, ast.Call) and isinstance(x.func, ast.Attribute) and x.func.attr == "format") for x in ast.walk(a)):
+                parts.append("msg")
+            else:
+                parts.append(self.expr(a, st))
+        return self.node(st, "exception", self.expr(exc.func, st), *parts, identity=True)
+
     def s_Raise(self, s, st, loop):
-        v = self.expr(s.exc, st) if s.exc is not None else "reraise"
+        v = (self._message_free(s.exc, st) or self.expr(s.exc, st)) if s.exc is not None else "reraise"
         c = self.expr(s.cause, st) if s.cause is not None else "-"
         st.dead, st.dkind, st.dval = True, "raise", self.h("exc", v, c)
 
